@@ -8,6 +8,14 @@ W1_COMPONENTS = {
 }
 
 PROPS = {
+    "C01": {
+        "level": "exploration",
+        "quick_runs": 6000, "quick_budget_s": 45,
+        "thorough_budget_s": 600,
+        "rule": "C01 scenario: 1-8 callers x 1-6 exchanges with unique questions and colliding caller IDs on one of 6 transports; replies permuted by PRNG delays, duplicated, strays, datagram loss, cancellations, wire-ID wrap-around.",
+        "components": W1_COMPONENTS,
+        "cfg_dist_keys": ["kind", "id_mode", "wrap", "surplus"],
+    },
     "C02": {
         "level": "exploration",
         "quick_runs": 6000, "quick_budget_s": 45,
